@@ -220,6 +220,7 @@ func (w *world) someSync() {
 	for h := range w.chain {
 		hs = append(hs, h)
 	}
+	sortU(hs) // map order is random: keep the engine a function of its seed
 	if len(hs) == 0 || w.r.Intn(6) == 0 {
 		cur := uint64(n.vn.State().Height())
 		b := &aBlock{Height: cur + uint64(w.r.Intn(3)), Id: 3000000 + w.byzBlocks}
@@ -994,7 +995,7 @@ func (w *world) takeV(to uint64, kind string, from uint64, view uint64) bool {
 }
 
 func kf1ForkWorld(r *rand.Rand, rep *Report, seed int64) *world {
-	w := &world{r: r, rep: rep, kr: newKeyring(seed), byz: map[uint64]bool{1: true}, byId: map[uint64]*simNode{}, signed: map[string]bool{},
+	w := &world{r: r, rep: rep, ord: rand.New(rand.NewSource(seed ^ 0x5bd1e995)), kr: newKeyring(seed), byz: map[uint64]bool{1: true}, byId: map[uint64]*simNode{}, signed: map[string]bool{},
 		proposedBy: map[uint64]uint64{}, validatedBy: map[uint64][]uint64{}, failCommit: map[uint64][]uint64{}, excl: map[uint64][]uint64{}, chain: map[uint64]*aBlock{}, held: map[uint64]bool{}}
 	w.codec = newCodec(w.kr)
 	w.n, w.weights, w.rot, w.kf1 = 4, []uint64{1, 1, 1, 1}, 0, true
@@ -1011,7 +1012,7 @@ func kf1ForkWorld(r *rand.Rand, rep *Report, seed int64) *world {
 // proposal for B, then receives the genuine COMMIT quorum for A: it must not deliver anything (it holds no proposal
 // for A), in particular not B.
 func equivocationWorld(r *rand.Rand, rep *Report, seed int64) *world {
-	w := &world{r: r, rep: rep, kr: newKeyring(seed), byz: map[uint64]bool{0: true}, byId: map[uint64]*simNode{}, signed: map[string]bool{},
+	w := &world{r: r, rep: rep, ord: rand.New(rand.NewSource(seed ^ 0x5bd1e995)), kr: newKeyring(seed), byz: map[uint64]bool{0: true}, byId: map[uint64]*simNode{}, signed: map[string]bool{},
 		proposedBy: map[uint64]uint64{}, validatedBy: map[uint64][]uint64{}, failCommit: map[uint64][]uint64{}, excl: map[uint64][]uint64{}, chain: map[uint64]*aBlock{}, held: map[uint64]bool{}}
 	w.codec = newCodec(w.kr)
 	w.n, w.weights, w.rot = 4, []uint64{1, 1, 1, 1}, 0
@@ -1052,7 +1053,7 @@ func (w *world) equivocationScript() {
 // directedWorld: four members of weight 1, rotation 0 (the leader of view v at height 1 is member v mod 4), the given
 // Byzantine set; the other members are real nodes.
 func directedWorld(r *rand.Rand, rep *Report, seed int64, byz ...uint64) *world {
-	w := &world{r: r, rep: rep, kr: newKeyring(seed), byz: map[uint64]bool{}, byId: map[uint64]*simNode{}, signed: map[string]bool{},
+	w := &world{r: r, rep: rep, ord: rand.New(rand.NewSource(seed ^ 0x5bd1e995)), kr: newKeyring(seed), byz: map[uint64]bool{}, byId: map[uint64]*simNode{}, signed: map[string]bool{},
 		proposedBy: map[uint64]uint64{}, validatedBy: map[uint64][]uint64{}, failCommit: map[uint64][]uint64{}, excl: map[uint64][]uint64{}, chain: map[uint64]*aBlock{}, held: map[uint64]bool{}}
 	for _, b := range byz {
 		w.byz[b] = true
@@ -1110,6 +1111,66 @@ func (w *world) earlyPrepareScript() {
 	w.takeV(3, "NV", 1, 1)
 	w.takeV(0, "P", 2, 1)
 	w.takeV(2, "P", 0, 1)
+}
+
+// lazyReaderSweep: the membuffers readers are lazy - a size word that points outside the buffer panics only when the
+// part is first read. For one message of every kind (votes with and without a prepared proof, a NEW_VIEW with votes),
+// every 4-byte word is overwritten with each of four hostile values; the results the readers cannot read as a whole
+// message are delivered as garbage to the member the original is addressed to, once for the current height (handled at
+// once) and once for the next height (cached, consumed when the member gets there). No effect is allowed (C12).
+func (w *world) lazyReaderSweep() {
+	for _, n := range w.honest {
+		w.sync(n, nil)
+	}
+	blk := func(h uint64) *aBlock { return &aBlock{Height: h, Id: 2999200 + h} }
+	proof := func(h uint64) *aProof {
+		return &aProof{PPRef: aRef{1, worldInst, h, 0, 2999200 + h}, PPSnd: aSig{0, true}, PRef: aRef{2, worldInst, h, 0, 2999200 + h}, PSnds: []aSig{{2, true}, {3, true}}}
+	}
+	var garbage [][]byte
+	for _, h := range []uint64{1, 2} {
+		vote0 := aVote{5, worldInst, h, 1, nil, aSig{0, true}}
+		vote2 := aVote{5, worldInst, h, 1, proof(h), aSig{2, true}}
+		vote3 := aVote{5, worldInst, h, 1, nil, aSig{3, true}}
+		samples := []*aMsg{
+			{Kind: "PP", Ref: aRef{1, worldInst, h, 0, 2999200 + h}, Snd: aSig{0, true}, Block: blk(h)},
+			{Kind: "P", Ref: aRef{2, worldInst, h, 0, 2999200 + h}, Snd: aSig{2, true}},
+			{Kind: "C", Ref: aRef{3, worldInst, h, 0, 2999200 + h}, Snd: aSig{2, true}, ShareOk: true},
+			{Kind: "VC", Vote: &vote0},
+			{Kind: "VC", Vote: &vote2, Block: blk(h)},
+			{Kind: "NV", NVType: 4, NVInst: worldInst, NVHeight: h, NVView: 1, Votes: []aVote{vote0, vote2, vote3}, Snd: aSig{1, true},
+				Ref: aRef{1, worldInst, h, 1, 2999200 + h}, PPSnd: aSig{1, true}, Block: blk(h)},
+		}
+		for _, m := range samples {
+			src := w.codec.encode(m).Content
+			for o := 0; o+4 <= len(src); o += 4 {
+				for _, v := range []uint32{uint32(len(src)), 1 << 31, ^uint32(0) - 3, ^uint32(0)} {
+					b := append([]byte{}, src...)
+					b[o], b[o+1], b[o+2], b[o+3] = byte(v), byte(v>>8), byte(v>>16), byte(v>>24)
+					raw := &interfaces.ConsensusRawMessage{Content: b}
+					var dm *aMsg
+					func() {
+						defer func() { recover() }()
+						dm = w.codec.decode(raw)
+					}()
+					if dm == nil {
+						garbage = append(garbage, b)
+					}
+				}
+			}
+		}
+	}
+	w.rep.count(fmt.Sprintf("garbage:lazy-reader-sweep-%d-messages", len(garbage)))
+	// member 1 leads view 1 at both heights (rotation 0): votes are addressed to it; the others get everything as well
+	for _, n := range w.honest {
+		for _, b := range garbage {
+			raw := &interfaces.ConsensusRawMessage{Content: b}
+			w.rep.count("event:garbage")
+			n.apply("EGarbage", fmt.Sprintf("garbage bytes %x", b), evInfo{kind: "garbage"}, func() { n.vn.Deliver(raw) })
+		}
+	}
+	for _, n := range w.honest {
+		w.sync(n, blk(1))
+	}
 }
 
 func (w *world) kf1ForkScript() {
